@@ -340,6 +340,7 @@ def ob_writer_tour(ctx, kinds, dims=1, rates=(7, 3, 2, 5, 4)):
 
     def body(st):
         env.assumptions.clear()
+        holder.pop('dyn', None)
         S = lambda n, hi=None: env.sym_f(n, 0, hi)
         I = lambda n, hi=2 ** 14: env.sym_i(n, 0, hi, 'i32')
         zero_l = lambda: mdl([0] * 8, 0)
@@ -358,8 +359,19 @@ def ob_writer_tour(ctx, kinds, dims=1, rates=(7, 3, 2, 5, 4)):
             env.assumptions.append(dep.v == z3.If(arr.v > tws.v, arr.v, tws.v) + dur.v)
             pick = [I(f'pick{i}_{d}') for d in range(dims)]
             deli = [I(f'deli{i}_{d}') for d in range(dims)]
-            dimens = {'job_type': Opaque(f'"{kind}"'), 'job_id': Opaque(f'"job{i}"')}
+            dimens = {'job_type': Opaque('"%s"' % {'dpickup': 'pickup', 'ddelivery': 'delivery'}.get(kind, kind)), 'job_id': Opaque(f'"job{i}"')}
             pad = [IV(0, 'i32')] * (8 - dims)
+            if kind in ('dpickup', 'ddelivery'):
+                # the two tasks of ONE shipment: the same symbolic amounts, carried as the dynamic part of the demand
+                if 'dyn' not in holder:
+                    holder['dyn'] = [I(f'dyn_{d}') for d in range(dims)]
+                dyn = holder['dyn']
+                pick = dyn if kind == 'dpickup' else pick
+                deli = dyn if kind == 'ddelivery' else deli
+                if kind == 'dpickup':
+                    dimens['job_demand'] = env.struct('load::Demand', pickup=Agg('tuple', [zero_l(), mdl(list(dyn) + pad, dims)], ''), delivery=Agg('tuple', [zero_l(), zero_l()], ''))
+                else:
+                    dimens['job_demand'] = env.struct('load::Demand', pickup=Agg('tuple', [zero_l(), zero_l()], ''), delivery=Agg('tuple', [zero_l(), mdl(list(dyn) + pad, dims)], ''))
             if kind == 'pickup':
                 dimens['job_demand'] = env.struct('load::Demand', pickup=Agg('tuple', [mdl(pick + pad, dims), zero_l()], ''), delivery=Agg('tuple', [zero_l(), zero_l()], ''))
             if kind == 'delivery':
@@ -425,8 +437,16 @@ def ob_writer_tour(ctx, kinds, dims=1, rates=(7, 3, 2, 5, 4)):
             res.status, res.detail = 'violated', f'{name}: {len(stops)} stops for {k + 2} pairwise different locations'
             break
         # loads: initial = sum of static deliveries; then per activity; distances cumulative
+        # reload intervals: static deliveries of an interval come on board at its start (depot / reload), static pickups leave at its end
+        bounds_ = [i for i, (kind, _, _) in enumerate(demands) if kind == 'reload']
+        segs = []
+        lo_ = 0
+        for b_ in bounds_ + [len(demands)]:
+            segs.append((lo_, b_))
+            lo_ = b_
+        seg_of = lambda i: next(sg for sg in segs if sg[0] <= i < sg[1])
         for d in range(dims):
-            cur = sum([deli[d].t for kind, _, deli in demands if kind == 'delivery'], z3.IntVal(0))
+            cur = sum([deli[d].t for kind, _, deli in demands[segs[0][0]:segs[0][1]] if kind == 'delivery'], z3.IntVal(0))
             cum = z3.IntVal(0)
             for si, stop in enumerate(stops):
                 point = stop.payload[0][0]
@@ -434,16 +454,20 @@ def ob_writer_tour(ctx, kinds, dims=1, rates=(7, 3, 2, 5, 4)):
                     cum = cum + legs[si - 1][1]
                     if si <= k:
                         kind, pick, deli = demands[si - 1]
-                        cur = cur + (pick[d].t if kind == 'pickup' else 0) - (deli[d].t if kind == 'delivery' else 0)
+                        if kind == 'reload':
+                            prev_seg = seg_of(si - 2) if si >= 2 else (0, 0)
+                            next_seg = seg_of(si - 1)
+                            cur = (cur - sum([pk[d].t for kd, pk, _ in demands[prev_seg[0]:prev_seg[1]] if kd == 'pickup'], z3.IntVal(0))
+                                   + sum([dl[d].t for kd, _, dl in demands[next_seg[0]:next_seg[1]] if kd == 'delivery'], z3.IntVal(0)))
+                        cur = cur + (pick[d].t if kind in ('pickup', 'dpickup') else 0) - (deli[d].t if kind in ('delivery', 'ddelivery') else 0)
                 load = F(point, 'model::PointStop', 'load').items
+                # a load without dimensions is written as [0]: a missing dimension reads as zero
+                rep = load[d].t if len(load) > d else z3.IntVal(0)
                 if si == k + 1:
                     # arrival: the code reports zero minus nothing for the arrival itself (static pickups are dropped at the end)
-                    claims.append(load[d].t == 0)
+                    claims.append(rep == 0)
                 else:
-                    if len(load) <= d:
-                        res.status, res.detail = 'violated', f'{name}: stop {si} reports {len(load)} load dimensions'
-                        break
-                    claims.append(load[d].t == cur)
+                    claims.append(rep == cur)
                 if d == 0:
                     claims.append(F(point, 'model::PointStop', 'distance').t == cum)
                     tm = F(point, 'model::PointStop', 'time')
@@ -452,7 +476,7 @@ def ob_writer_tour(ctx, kinds, dims=1, rates=(7, 3, 2, 5, 4)):
         if res.status != 'holds':
             break
         if not decide_claim(ctx, res, env, st, z3.And(*claims), dom, what=f'{name}: reported statistic, loads, distances, times == recomputation'):
-            if res.status == 'violated' and res.model is not None and kinds.count('break') <= 1 and rates[2] == rates[3] == rates[4]:
+            if res.status == 'violated' and res.model is not None and kinds.count('break') <= 1 and kinds.count('reload') <= 1 and rates[2] == rates[3] == rates[4]:
                 res.case = writer_case(res.model, env, nodes, demands, rates, dims)
             break
         if not no_panic(ctx, res, env, st, dom, what=name):
@@ -479,8 +503,14 @@ def writer_case(m, env, nodes, demands, rates, dims):
     dur = [[0 if i == j else ev(env.Dur(nodes[i]['loc'].t, nodes[j]['loc'].t)) for j in range(n)] for i in range(n)]
     dist = [[0 if i == j else ev(env.Dist(nodes[i]['loc'].t, nodes[j]['loc'].t)) for j in range(n)] for i in range(n)]
     jobs, order, ref = [], [], []
-    breaks = []
+    breaks, reloads = [], []
+    shipment = {}
     for i, (node, (kind, pick, deli)) in enumerate(zip(nodes[1:-1], demands), start=1):
+        if kind == 'reload':
+            reloads.append({'location': {'index': i}, 'duration': float(ev(node['dur'].v)), 'times': [[rfc3339(ev(node['tws'].v)), far]]})
+            order.append('reload')
+            ref.append({'kind': 'reload', 'dur': ev(node['dur'].v), 'tws': ev(node['tws'].v), 'amounts': [0] * dims})
+            continue
         if kind == 'break':
             # a vehicle break with its own location: becomes the conditional job of type "break"
             breaks.append({'time': [rfc3339(ev(node['tws'].v)), far], 'places': [{'duration': float(ev(node['dur'].v)), 'location': {'index': i}}]})
@@ -488,6 +518,14 @@ def writer_case(m, env, nodes, demands, rates, dims):
             ref.append({'kind': 'break', 'dur': ev(node['dur'].v), 'tws': ev(node['tws'].v), 'amounts': [0] * dims})
             continue
         task = {'places': [{'location': {'index': i}, 'duration': float(ev(node['dur'].v)), 'times': [[rfc3339(ev(node['tws'].v)), far]]}]}
+        if kind in ('dpickup', 'ddelivery'):
+            amounts = [ev(x.t) for x in (pick if kind == 'dpickup' else deli)]
+            task['demand'] = amounts
+            shipment.setdefault('id', 'dyn')
+            shipment['pickups' if kind == 'dpickup' else 'deliveries'] = [task]
+            order.append('dyn#0' if kind == 'dpickup' else 'dyn#1')
+            ref.append({'kind': kind, 'dur': ev(node['dur'].v), 'tws': ev(node['tws'].v), 'amounts': amounts})
+            continue
         amounts = [ev(x.t) for x in (pick if kind == 'pickup' else deli)]
         if kind in ('pickup', 'delivery'):
             task['demand'] = amounts
@@ -496,11 +534,13 @@ def writer_case(m, env, nodes, demands, rates, dims):
         order.append(f'job{i}')
         ref.append({'kind': kind, 'dur': ev(node['dur'].v), 'tws': ev(node['tws'].v), 'amounts': amounts})
     dep0 = ev(nodes[0]['dep'].v)
+    if shipment:
+        jobs.append(shipment)
     problem = {'plan': {'jobs': jobs},
                'fleet': {'vehicles': [{'typeId': 'type1', 'vehicleIds': ['v1'], 'profile': {'matrix': 'car'},
                                        'costs': {'fixed': float(rates[0]), 'distance': float(rates[1]), 'time': float(rates[2])},
                                        'shifts': [dict({'start': {'earliest': rfc3339(dep0), 'location': {'index': 0}},
-                                                        'end': {'latest': far, 'location': {'index': n - 1}}}, **({'breaks': breaks} if breaks else {}))],
+                                                        'end': {'latest': far, 'location': {'index': n - 1}}}, **dict({'breaks': breaks} if breaks else {}, **({'reloads': reloads} if reloads else {})))],
                                        'capacity': [1000000] * dims}],
                          'profiles': [{'name': 'car'}]}}
     matrix = {'profile': 'car', 'travelTimes': [x for row in dur for x in row], 'distances': [x for row in dist for x in row]}
